@@ -32,8 +32,9 @@ import (
 // TLItem is one arrival on one of the two streams.
 type TLItem struct {
 	AtMs  int
-	Kind  string // event | noise | login | raw
+	Kind  string // event | part | noise | login | raw
 	S, E  int
+	Lo, Hi int // part: records [Lo,Hi) of the event
 	Noise *KEvent
 	Raw   string
 }
@@ -289,12 +290,14 @@ func (p *Pipeline) auditWriter() {
 		switch it.Kind {
 		case "event":
 			lines = p.H.W.Sessions[it.S].Events[it.E].Lines
+		case "part":
+			lines = p.H.W.Sessions[it.S].Events[it.E].Lines[it.Lo:it.Hi]
 		case "noise":
 			lines = it.Noise.Lines
 		case "raw":
 			lines = []string{it.Raw}
 		}
-		if it.Kind == "event" {
+		if it.Kind == "event" || (it.Kind == "part" && it.Lo == 0) {
 			p.H.evAt[fmt.Sprintf("%d.%d", it.S, it.E)] = p.axis()
 			p.H.evTime[fmt.Sprintf("%d.%d", it.S, it.E)] = time.Now()
 		}
